@@ -195,6 +195,16 @@ static void on_delete(rime::Context* ctx) {
   emit("E delete " + sel_desc(spy, ctx->GetSelectedCandidate()));
 }
 
+static rime::Context* context();
+// the candidate a delete_candidate(index) call names, described like the one the delete notifier finds selected
+static void emit_delete_request(size_t index) {
+  rime::Context* ctx = context();
+  SpyBase* spy = main_spy();
+  if (!spy || !ctx || !ctx->HasMenu()) return;
+  auto cand = ctx->composition().back().GetCandidateAt(index);
+  if (cand) emit("E delete_req " + sel_desc(spy, cand));
+}
+
 static void on_unhandled(rime::Context* ctx, const rime::KeyEvent& key) {
   SpyBase* spy = main_spy();
   if (!spy || !spy->mem->user_dict() || spy->mem->user_dict()->readonly()) return;
@@ -448,10 +458,11 @@ int main(int argc, char** argv) {
       }
       if (found < 0) status = "noop";
       else if (w[0] == 's') { if (!api->select_candidate(g_session, (size_t)found)) status = "noop"; }
-      else { if (!api->delete_candidate(g_session, (size_t)found)) status = "noop"; }
+      else { emit_delete_request((size_t)found); if (!api->delete_candidate(g_session, (size_t)found)) status = "noop"; }
       if (found >= 0) status += " index=" + std::to_string(found);
     } else if (w == "delete") {
       size_t i; is >> i;
+      emit_delete_request(i);
       if (!api->delete_candidate(g_session, i)) status = "noop";
     } else if (w == "ctrl_delete") {
       size_t i; is >> i;
